@@ -11,7 +11,7 @@ def fail_build(out):
 
 
 def harness(drv, prop, tier, args, guard_on=True, extra_args=None):
-    tdir, out = drv.build(guard_on=guard_on)
+    tdir, out = drv.build(guard_on=guard_on, extra=["--bin", "hpke-mc"])
     if tdir is None:
         return fail_build(out)
     exe = os.path.join(tdir, "release", "hpke-mc")
@@ -71,9 +71,50 @@ def run_r2(drv, prop, tier, args):
     return rc
 
 
+def run_c18(drv, prop, tier, args):
+    # 1. compile probe: all public types Send + Sync. A build failure on exactly that is the violation.
+    tdir, out = drv.build(guard_on=True, extra=["--bin", "sendsync"])
+    if tdir is None:
+        if "E0277" in out and ("Send" in out or "Sync" in out) and "sendsync.rs" in out:
+            os.makedirs(os.path.join(drv.ROOT, "replays", prop), exist_ok=True)
+            log = os.path.join(drv.ROOT, "replays", prop, "sendsync-build.log")
+            open(log, "w").write(out)
+            bad = [l for l in out.splitlines() if "cannot be sent between threads" in l or "cannot be shared between threads" in l][:5]
+            print(f"VIOLATION property={prop} replay={log}")
+            for b in bad:
+                print("  " + b.strip())
+            ev = {"property_id": prop, "tier": tier, "seed": int(os.environ.get("VERIF_SEED", "0")), "level": "model_checking",
+                  "coverage": {"evaluations": 1, "distinct_nontrivial": 2, "rule": "compile probe assert_send_sync::<T>() failed with E0277: a public type is no longer Send/Sync", "samples": bad or ["see build log"], "exhaustive": False},
+                  "assumptions": [], "wall_s": 0.0, "violations": 1}
+            json.dump(ev, open(os.path.join(drv.ROOT, "evidence", f"{prop}.json"), "w"), indent=1)
+            return 1
+        return fail_build(out)
+    p = subprocess.run([os.path.join(tdir, "release", "sendsync")], capture_output=True, text=True)
+    if p.returncode != 0 or not p.stdout.strip().isdigit():
+        print("MACHINERY-ERROR sendsync probe did not run", file=sys.stderr)
+        return 2
+    ntypes = p.stdout.strip()
+    tdir, out = drv.build(guard_on=True, extra=["--bin", "sched"])
+    if tdir is None:
+        return fail_build(out)
+    cmd = [os.path.join(tdir, "release", "sched"), "C18", "--root", drv.ROOT, "--sendsync-types", ntypes] + args
+    return drv.run(cmd, cwd=drv.ROOT)
+
+
 def dispatch(drv, prop, tier, args):
     if prop in ("C02", "C03"):
         return run_r2(drv, prop, tier, args)
+    if prop == "C18":
+        return run_c18(drv, prop, tier, args)
+    if prop == "C17":
+        tdir, out = drv.build(guard_on=True, extra=["--bin", "hpke-mc"])   # for R1's transcript (hpke-mc C17-expect)
+        if tdir is None:
+            return fail_build(out)
+        if "--replay" in args:
+            print(open(args[args.index("--replay") + 1]).read())
+            print("C17 replays are cargo invocations: re-run ./check C17 (see the 'reproduce' field)")
+            return 0
+        return drv.run([sys.executable, os.path.join(drv.ROOT, "tools", "c17.py"), "--tier", tier], cwd=drv.ROOT)
     if prop in ("C09", "C12"):
         # the case file (encodings + R2's verdicts) is regenerated on every run
         ref = os.path.join(drv.ROOT, "ref")
